@@ -68,6 +68,54 @@ def load(b, ascii_ok=False, **kw):
     return MidiFile(file=io.BytesIO(b), **kw), 0
 
 
+class ShortReads(io.RawIOBase):
+    """A raw, unbuffered, seekable stream (an unbuffered file on a network file system) that hands out at most 4096 bytes
+    per read() call - fewer than asked for without being at the end."""
+
+    def __init__(self, data, limit=4096):
+        self.data, self.pos, self.limit = bytes(data), 0, limit
+
+    def readable(self):
+        return True
+
+    def seekable(self):
+        return True
+
+    def tell(self):
+        return self.pos
+
+    def seek(self, offset, whence=0):
+        self.pos = max(0, min(len(self.data), offset + (0, self.pos, len(self.data))[whence]))
+        return self.pos
+
+    def readinto(self, buf):
+        k = min(len(buf), self.limit, len(self.data) - self.pos)
+        buf[:k] = self.data[self.pos:self.pos + k]
+        self.pos += k
+        return k
+
+
+def short_read_cases(ctx):
+    """Events with payloads beyond one read() of a raw stream load like from memory."""
+    n = 0
+    rng = random.Random(f'{ctx.seed}:short-reads')
+    for size in (100, 4095, 4096, 4097, 5000, 9000, 70000):
+        tracks = [[('meta', 3, 0x01, [rng.randrange(256) for _ in range(size)]), ('sysex', 1, [rng.randrange(128) for _ in range(size)]),
+                   ('meta', 0, 0x7F, [rng.randrange(256) for _ in range(size)]), ('ch', 5, 0x90, [1, 2]),
+                   ('meta', 9, 0x60, [rng.randrange(256) for _ in range(size)]), ('meta', 0, 0x2F, [])]]
+        b, _ = smf.encode_file(1, 96, tracks)
+        case = {'kind': 'short-reads', 'payload_bytes': size}
+        try:
+            mem = MidiFile(file=io.BytesIO(b))
+            raw = MidiFile(file=ShortReads(b))
+            ctx.check('alternative encoding loads to the event list', events_of(raw) == events_of(mem) == [smf.norm_track(t) for t in tracks],
+                      'short-reads-differ', case, None)
+        except Exception as exc:
+            ctx.fail('alternative encoding loads to the event list', f'short-reads:{type(exc).__name__}', case, f'{type(exc).__name__}: {exc}'[:200])
+        n += 1
+    return n
+
+
 def events_of(mid):
     return [smf.norm_track(smf.events_of_track(t)) for t in mid.tracks]
 
@@ -315,6 +363,10 @@ def run(ctx):
         big_track_file_modes(ctx, f'{ctx.seed}:big')
         ctx.nontrivial(('big-track',))
         n += 1
+    if ctx.shard == 12 % ctx.nshards:
+        k = short_read_cases(ctx)
+        ctx.nontrivial(None, k)
+        n += k
     if ctx.shard == 11 % ctx.nshards:
         k = overwrite_cases(ctx)
         ctx.nontrivial(None, k)
@@ -440,7 +492,9 @@ def replay(ctx, case):
         from .. import coldstart
         coldstart.replay(ctx, case, 'written bytes conformant')
         return
-    if case['kind'] == 'overwrite':
+    if case['kind'] == 'short-reads':
+        short_read_cases(ctx)
+    elif case['kind'] == 'overwrite':
         overwrite_cases(ctx)
     elif case['kind'] == 'big-track':
         big_track_file_modes(ctx, 'replay')
